@@ -444,12 +444,15 @@ func rangeScan[K nodeKey, V any, L nodeLeaf[V]](
 		}
 
 		var q []nodeRef
+		var depths []int // depth of every entry of q
 
-		depth := 0
 		q = append(q, root)
+		depths = append(depths, 0)
 		for len(q) != 0 {
 			n := q[len(q)-1]
 			q = q[:len(q)-1]
+			depth := depths[len(depths)-1]
+			depths = depths[:len(depths)-1]
 
 			if n.tag == nodeKindLeaf {
 				leaf := (L)(n.pointer)
@@ -519,7 +522,9 @@ func rangeScan[K nodeKey, V any, L nodeLeaf[V]](
 				panic("shouldn't be possible!")
 			}
 
-			depth += int(node.prefixLen) + 1
+			for len(depths) < len(q) {
+				depths = append(depths, depth+int(node.prefixLen)+1)
+			}
 		}
 	}
 }
